@@ -156,10 +156,53 @@ def gen_classkw(r):
     return pre + core
 
 
+def gen_classinfunc(r):
+    """a class statement nested (1-2 levels, optionally through a method) in a function; its CLASS BODY - an assignment value,
+    or a statement inside for / if / try in the class body - reads a module-level name that is bound by a statement AFTER the
+    enclosing def.  The function is registered and runs after the module: nothing raises, nothing may be reported."""
+    pool = list(G.NAMES)
+    r.shuffle(pool)
+    fn, cn, cn2, late, late2, cv, meth = pool[0], pool[1], pool[2], pool[3], pool[4], pool[5], pool[6]
+    P0 = {"posonly": [], "args": [], "vararg": None, "kwonly": [], "kwarg": None, "defaults": [], "kw_defaults": []}
+
+    def rd(n):
+        return ["load", n, [r.choice(G.ATTRS)] if r.random() < .5 else []]
+    k = r.random()
+    if k < .4:
+        inner = [["assign", [["n", cv]], rd(late)]]
+    elif k < .6:
+        inner = [["for", ["n", cv], ["op", "list", [["load", G.REG, []]]], [["expr", rd(late)]], []]]
+    elif k < .8:
+        inner = [["if", ["load", G.REG, []], [["assign", [["n", cv]], rd(late)]], []]]
+    else:
+        inner = [["try", [["expr", rd(late)]], [], [], [["pass"]]]]
+    if r.random() < .4:
+        inner.append(["expr", ["op", "call", [rd(late2), rd(late)]]])
+    cls = ["class", cn, [], [], [], inner]
+    if r.random() < .3:
+        cls = ["class", cn2, [], [], [], [["pass"], cls]]
+    body = [cls]
+    if r.random() < .3:
+        # through a method: def fn(): class cn2: def meth(self): class cn: ...   (the method is registered too)
+        PM = dict(P0); PM["args"] = [["self", None]]
+        body = [["class", cn2, [], [], [], [["def", meth, [], PM, None, [cls]],
+                                             ["assign", [["n", meth]], ["op", "call", [["load", G.REG, []], ["load", meth, []]]]]]]]
+    g = G.Gen(r, True, maxdepth=1, classes=False, comps=False)
+    mid = g.stmt(0) if r.random() < .4 else []
+    binders = [r.choice([["assign", [["n", late]], ["load", G.REG, []]], ["import", [[["m"], late]]]]),
+               ["assign", [["n", late2]], ["load", G.REG, []]]]
+    return [["def", fn, [], P0, None, body], ["assign", [["n", fn]], ["op", "call", [["load", G.REG, []], ["load", fn, []]]]]] \
+        + mid + binders
+
+
 def make_case(seed, i, kind=None):
     r = cm.rng(seed, "c05", i)
     if kind is None and i % 25 == 24:
         kind = "cc"
+    if kind is None and i % 25 == 4:
+        kind = "cf"
+    if kind == "cf":
+        return {"kind": "exec", "i": i, "prog": G.normalise(gen_classinfunc(r)), "ns": gen_ns(r)}
     if kind is None and i % 25 == 14:
         kind = "ck"
     if kind == "cc":
@@ -952,12 +995,12 @@ def run_unused_witnesses(ctx):
 # oracle-only stream: the initial namespace holds REAL module objects (symbol_needs_import's walk through modules;
 # modelled on the C06 / C20 side - AutoImp/Needs.v -, here only executed)
 
-MODS_STD = {"os": ["path", "sep", "getcwd", "__dict__", "__class__", "__name__", "nope"],
+MODS_STD = {"os": ["path", "sep", "altsep", "getcwd", "__dict__", "__class__", "__name__", "nope"],
             "json": ["decoder", "dumps", "__spec__", "nope"],
             "collections": ["abc", "OrderedDict", "__doc__", "nope"],
             "concurrent": ["futures", "nope"],
             "importlib": ["machinery", "import_module", "__dir__", "nope"]}
-MODS_STD2 = {"os.path": ["join", "sep", "__class__", "nope"], "json.decoder": ["JSONDecoder", "nope"],
+MODS_STD2 = {"os.path": ["join", "sep", "altsep", "__class__", "nope"], "json.decoder": ["JSONDecoder", "nope"],
              "collections.abc": ["Mapping", "nope"], "concurrent.futures": ["ThreadPoolExecutor", "Future", "wait", "nope"],
              "importlib.machinery": ["ModuleSpec", "nope"]}
 
@@ -972,9 +1015,10 @@ def make_mods_case(seed, i):
     plus stdlib modules (attributes inherited from ModuleType such as __dict__ / __class__; concurrent.futures serves
     ThreadPoolExecutor through PEP 562 until first use)."""
     r = cm.rng(seed, "c05mods", i)
-    spec = {"zpep": {"static": ["sa", "sb"], "dyn": ["da", "db"], "cache": r.random() < .5},
-            "zpkg": {"static": ["pa"], "subs": ["sub"], "lazy": ["lza", "lzb"], "subdyn": ["sd"], "substatic": ["sx"]},
-            "zsub": {"cls": ["inh"], "prop": ["pr"], "own": ["oa"]}}
+    # attributes whose names end in "n" hold None (os.altsep, an unset option): a value, not a missing attribute
+    spec = {"zpep": {"static": ["sa", "sb", "son"], "dyn": ["da", "db", "dyn"], "cache": r.random() < .5},
+            "zpkg": {"static": ["pa", "pan"], "subs": ["sub"], "lazy": ["lza", "lzb"], "subdyn": ["sd", "sdn"], "substatic": ["sx", "sxn"]},
+            "zsub": {"cls": ["inh", "inhn"], "prop": ["pr", "prn"], "own": ["oa", "oan"]}}
     roots = ["zpep", "zpkg", "zsub"] + list(MODS_STD)
     present = [x for x in roots if r.random() < .8]
     extra = [x for x in ["zzmiss", "plainv"] if r.random() < .5]        # zzmiss: not in the namespace; plainv: a non-module value
@@ -1008,19 +1052,22 @@ def build_universe(spec, present):
     import sys
     import types
 
-    class Obj:
+    class Obj_:
         def __init__(self):
             self.x = 1
+
+    def val(name):
+        return None if name.endswith("n") else Obj_()
     for k in [k for k in sys.modules if k.split(".")[0] in ("zpep", "zpkg", "zsub")]:
         del sys.modules[k]
     ns = {}
     zp = types.ModuleType("zpep")
     for a in spec["zpep"]["static"]:
-        setattr(zp, a, Obj())
+        setattr(zp, a, val(a))
 
     def zp_getattr(name, _m=zp, _dyn=tuple(spec["zpep"]["dyn"]), _cache=spec["zpep"]["cache"]):
         if name in _dyn:
-            v = Obj()
+            v = val(name)
             if _cache:
                 setattr(_m, name, v)
             return v
@@ -1031,11 +1078,11 @@ def build_universe(spec, present):
     def submodule(full):
         m = types.ModuleType(full)
         for a in spec["zpkg"]["substatic"]:
-            setattr(m, a, Obj())
+            setattr(m, a, val(a))
 
         def g(name, _dyn=tuple(spec["zpkg"]["subdyn"]), _full=full):
             if name in _dyn:
-                return Obj()
+                return val(name)
             raise AttributeError("module %r has no attribute %r" % (_full, name))
         m.__getattr__ = g
         sys.modules[full] = m
@@ -1043,7 +1090,7 @@ def build_universe(spec, present):
     zk = types.ModuleType("zpkg")
     zk.__path__ = []
     for a in spec["zpkg"]["static"]:
-        setattr(zk, a, Obj())
+        setattr(zk, a, val(a))
     for a in spec["zpkg"]["subs"]:
         setattr(zk, a, submodule("zpkg." + a))
 
@@ -1059,19 +1106,19 @@ def build_universe(spec, present):
     class SubMod(types.ModuleType):
         pass
     for a in spec["zsub"]["cls"]:
-        setattr(SubMod, a, Obj())
+        setattr(SubMod, a, val(a))
     for a in spec["zsub"]["prop"]:
-        setattr(SubMod, a, property(lambda self: Obj()))
+        setattr(SubMod, a, property(lambda self, _a=a: val(_a)))
     zs = SubMod("zsub")
     for a in spec["zsub"]["own"]:
-        setattr(zs, a, Obj())
+        setattr(zs, a, val(a))
     sys.modules["zsub"] = zs
     gen = {"zpep": zp, "zpkg": zk, "zsub": zs}
     for name in present:
         if name in gen:
             ns[name] = gen[name]
         elif name == "plainv":
-            ns[name] = Obj()
+            ns[name] = Obj_()
         else:
             ns[name] = importlib.import_module(name)
             for sub in MODS_STD2:
